@@ -1,7 +1,13 @@
 // Unit tracker_geom — property C16: index/line geometry underneath the attribution tracker.
 use vstd::prelude::*;
 use vstd::std_specs::iter::IteratorSpec;
+use vstd::std_specs::cmp::OrdSpec;
+use core::cmp::Ordering;
 verus! {
+
+// not needed by the current text; present so that the free-function spelling std::cmp::max / min of the
+// `.max()` / `.min()` calls in these functions stays inside the Verus subset
+//#include ../_shared/cmp_shims.inc.rs
 
 //#include ../_shared/attr_specs.inc.rs
 //#include ../_shared/attribution.inc.rs
